@@ -39,6 +39,11 @@ func c12Expected(bounds, lat []int64) []uint64 {
 var c12Row = regexp.MustCompile(`^\[(\S+),\s+(\S+)\]\s+(\d+)\s+(\S+)%\s*(#*)\s*$`)
 
 func c12CheckRenderings(h *vegeta.Histogram, bounds []int64, want []uint64, what string) error {
+	return c12CheckRenderingsWith(h, nil, bounds, want, what)
+}
+
+// textRep != nil: a text reporter built earlier for h (it must show h as it is when rendering)
+func c12CheckRenderingsWith(h *vegeta.Histogram, textRep vegeta.Reporter, bounds []int64, want []uint64, what string) error {
 	// JSON rendering
 	var js []byte
 	var jerr error
@@ -84,7 +89,10 @@ func c12CheckRenderings(h *vegeta.Histogram, bounds []int64, want []uint64, what
 	// text rendering
 	var buf bytes.Buffer
 	var rerr error
-	if perr := vh.Try(func() { rerr = vegeta.NewHistogramReporter(h).Report(&buf) }); perr != nil {
+	if textRep == nil {
+		textRep = vegeta.NewHistogramReporter(h)
+	}
+	if perr := vh.Try(func() { rerr = textRep.Report(&buf) }); perr != nil {
 		return fmt.Errorf("%s: text rendering panics: %v", what, perr)
 	}
 	if rerr != nil {
@@ -166,6 +174,19 @@ func runC12(c c12Case) error {
 	if err := c12CheckRenderings(h, c.Bounds, want, fmt.Sprintf("%d results added", len(c.Lat))); err != nil {
 		return err
 	}
+	// a reporter built before the histogram got its buckets and results shows the histogram as it is when it renders
+	hl := &vegeta.Histogram{}
+	early := vegeta.NewHistogramReporter(hl)
+	hl.Buckets = bk
+	if err := c12CheckRenderingsWith(hl, early, c.Bounds, zero, "reporter built before the buckets were set, no result added"); err != nil {
+		return err
+	}
+	for _, l := range c.Lat {
+		hl.Add(&vegeta.Result{Latency: time.Duration(l)})
+	}
+	if err := c12CheckRenderingsWith(hl, early, c.Bounds, want, fmt.Sprintf("reporter built before the buckets were set, %d results added", len(c.Lat))); err != nil {
+		return err
+	}
 	// a rendering that was handed out stays what it was: snapshots rendered while the histogram grows
 	// (what periodic reporting keeps) still show the counts of their moment after later renderings
 	hs := &vegeta.Histogram{Buckets: bk}
@@ -222,7 +243,9 @@ func c12GenBounds(t *rapid.T) []int64 {
 	n := rapid.IntRange(1, 20).Draw(t, "nb")
 	b := make([]int64, 0, n)
 	var cur int64
-	switch rapid.IntRange(0, 2).Draw(t, "first") {
+	switch rapid.IntRange(0, 3).Draw(t, "first") {
+	case 3: // bounds may lie below zero (nothing in the statement, the parser or Add forbids it)
+		cur = -rapid.OneOf(rapid.SampledFrom([]int64{1, 1000, 5e6, 10e6, 1e9}), rapid.Int64Range(1, 1e10)).Draw(t, "firstneg")
 	case 0:
 		cur = 0
 	case 1:
@@ -278,6 +301,9 @@ func TestC12Histogram(t *testing.T) {
 		if c.Bounds[0] > 0 {
 			labels = append(labels, "first-bound>0")
 		}
+		if c.Bounds[0] < 0 {
+			labels = append(labels, "first-bound<0")
+		}
 		sig, _ := json.Marshal(c)
 		vh.Case("C12.histogram", string(sig), nt, labels...)
 		vh.Sample("C12.histogram", nt, c)
@@ -327,17 +353,22 @@ func runC12Spec(c c12Spec) error {
 			return fmt.Errorf("Buckets.UnmarshalText(%q) = %v, want %v", c.Text, bs, want)
 		}
 	}
-	// covers every non-negative latency: a zero-latency result lands in bucket 0
+	// covers every non-negative latency: a zero-latency result lands in the bucket that holds 0
+	// (the first one, unless bounds below zero were given)
 	h := vegeta.Histogram{Buckets: bs}
 	h.Add(&vegeta.Result{Latency: 0})
-	if h.Counts[0] != 1 {
-		return fmt.Errorf("spec %q: latency 0 is not counted in the first bucket: %v", c.Text, h.Counts)
+	zeroAt := sort.Search(len(want), func(i int) bool { return want[i] > 0 }) - 1
+	if zeroAt < 0 || h.Counts[zeroAt] != 1 {
+		return fmt.Errorf("spec %q: latency 0 is not counted in bucket %d, the one that holds it: %v", c.Text, zeroAt, h.Counts)
 	}
 	return nil
 }
 
 // render d in a drawn notation that time.ParseDuration documents
 func c12DurText(t *rapid.T, l string, d int64) string {
+	if d < 0 {
+		return "-" + c12DurText(t, l+".neg", -d)
+	}
 	if d == 0 {
 		return rapid.SampledFrom([]string{"0", "0s", "0ms", "0ns", "0h"}).Draw(t, l)
 	}
